@@ -79,13 +79,15 @@ def extrema_cases(mod):
     """yield (name, body, assumptions, post)  for the explorer"""
     for ncol in (2, 1):
         for first in (False, True):
-            for withx in (True, False):
+            for withx in (True, False) + (() if first else ("table only",)):
                 for casenum in (None, 0):
                     yield ncol, first, withx, casenum
 
 
 def run_extrema(mod, ncol, first, withx, casenum, results):
-    tag = "extrema[cols=%d,%s,%s,casenum=%s]" % (ncol, "first call" if first else "update", "with abscissa" if withx else "no abscissa", casenum)
+    # withx == "table only": the running table carries abscissae, the new case has none - where the new case wins, the abscissa must become NaN (not stay that of a beaten case)
+    tag = "extrema[cols=%d,%s,%s,casenum=%s]" % (ncol, "first call" if first else "update", {True: "with abscissa", False: "no abscissa"}.get(withx, "table with / new case without abscissa"), casenum)
+    curx, withx = bool(withx), withx is True
     M, m_, Mx, mx_ = zf("M"), zf("m"), zf("Mx"), zf("mx")
     a, b, ax, bx = zf("a"), zf("b"), zf("ax"), zf("bx")
     nanx = Z(0, z3.BoolVal(True))
@@ -94,12 +96,12 @@ def run_extrema(mod, ncol, first, withx, casenum, results):
     w = [Member("wmax"), Member("wmin")]
     hyp = []
     if not first:
-        hyp = env_hyp(M, Mx if withx else nanx, kinds[0], t0[0], w[0]) + env_hyp(m_, mx_ if withx else nanx, kinds[1], t0[1], w[1])
+        hyp = env_hyp(M, Mx if curx else nanx, kinds[0], t0[0], w[0]) + env_hyp(m_, mx_ if curx else nanx, kinds[1], t0[1], w[1])
 
     state = {}
 
     def body():
-        cur = SimpleNamespace(ext=None if first else arr([[M, m_]]), ext_x=None if (first or not withx) else arr([[Mx, mx_]]),
+        cur = SimpleNamespace(ext=None if first else arr([[M, m_]]), ext_x=None if (first or not curx) else arr([[Mx, mx_]]),
                               maxcase=None if first else ["OLD"], mincase=None if first else ["OLD"])
         if casenum is not None:
             cur.mx, cur.mn = arr([[zf("p0", False)]]), arr([[zf("p1", False)]])
@@ -215,14 +217,17 @@ def concrete_extrema(mod, seed, n=300):
             data = np.where(np.isnan(data), np.nan, np.sort(np.nan_to_num(data, nan=0.0), axis=2)[:, :, ::-1])   # max >= min per case
             data[np.isnan(rng.choice(vals, size=data.shape))] = np.nan
         xs = rng.randn(ncase, rows, ncol)
+        # some later cases carry no abscissa (e.g. filled in by add_maxmin without x-values): where such a case attains the extreme, the abscissa is NaN
+        nox = [c > 0 and it % 3 == 2 and rng.rand() < 0.5 for c in range(ncase)]
         cur = SimpleNamespace(ext=None, ext_x=None, maxcase=None, mincase=None, mx=np.zeros((rows, ncase)), mn=np.zeros((rows, ncase)),
                               mx_x=np.zeros((rows, ncase)), mn_x=np.zeros((rows, ncase)))
-        mms = [SimpleNamespace(ext=data[c].copy(), ext_x=xs[c].copy()) for c in range(ncase)]
+        mms = [SimpleNamespace(ext=data[c].copy(), ext_x=None if nox[c] else xs[c].copy()) for c in range(ncase)]
+        xs = np.where(np.array(nox)[:, None, None], np.nan, xs)
         for c in range(ncase):
             mod.extrema(cur, mms[c], "case%d" % c, casenum=c)
         ev += 1
         for c in range(ncase):     # frame: the per-case inputs must still hold their own data after later updates
-            if not (np.array_equal(mms[c].ext, data[c], equal_nan=True) and np.array_equal(mms[c].ext_x, xs[c])):
+            if not (np.array_equal(mms[c].ext, data[c], equal_nan=True) and (nox[c] or np.array_equal(mms[c].ext_x, xs[c]))):
                 return ev, dict(ncol=ncol, cases=data.tolist(), abscissae=xs.tolist(), modified_case=c,
                                 what="extrema modified (or aliased and later overwrote) the table of an earlier case/event")
         for r in range(rows):
@@ -237,12 +242,27 @@ def concrete_extrema(mod, seed, n=300):
                 else:
                     want = pick(key(vec))
                     ci = int(labs[r][4:])
-                    good = (key(got) == want) and (key(vec[ci]) == want) and cur.ext_x[r, col] == xs[ci, r, 0 if col == 0 else -1]
+                    wx = xs[ci, r, 0 if col == 0 else -1]
+                    good = (key(got) == want) and (key(vec[ci]) == want) and (cur.ext_x[r, col] == wx or (np.isnan(wx) and np.isnan(cur.ext_x[r, col])))
                 if not good:
                     return ev, dict(ncol=ncol, cases=data[:, r, :].tolist(), row=r, column=col, got=float(got), label=labs[r],
                                     what="extreme table does not hold the %s over the cases (or label/abscissa not from an attaining case)" % ("max" if col == 0 else "min"))
             if not (np.array_equal(cur.mx[r], data[:, r, 0], equal_nan=True) and np.array_equal(cur.mn[r], data[:, r, -1], equal_nan=True)):
                 return ev, dict(ncol=ncol, cases=data[:, r, :].tolist(), row=r, what="per-case mx/mn columns are not the cases in order")
+    # maxmin: the abscissae keep the type of `x` whatever the element type of the responses (float32 / integer-typed histories with a float64 time vector)
+    for it in range(max(20, n // 10)):
+        rows, nt = rng.randint(1, 5), rng.randint(2, 9)
+        x = np.cumsum(rng.rand(nt) + 0.01) + (0.123456789 if it % 2 else 0.0)
+        base = rng.randint(-50, 50, size=(rows, nt))
+        for dt in (np.float64, np.float32, np.int64, np.int16):
+            resp = (base + (rng.rand(rows, nt) if dt in (np.float64, np.float32) else 0)).astype(dt)
+            got = mod.maxmin(resp, x)
+            ev += 1
+            for r in range(rows):
+                jx, jn = int(np.argmax(resp[r])), int(np.argmin(resp[r]))
+                if not (got.ext[r, 0] == resp[r, jx] and got.ext[r, 1] == resp[r, jn] and got.ext_x[r, 0] == x[jx] and got.ext_x[r, 1] == x[jn]):
+                    return ev, dict(what="maxmin: extreme / abscissa of row %d is not (max, min) of the history with the x-values where they occur" % r, response=resp.tolist(),
+                                    response_dtype=str(resp.dtype), x=x.tolist(), got_ext=got.ext.tolist(), got_ext_x=got.ext_x.tolist(), want_x=[float(x[jx]), float(x[jn])])
     return ev, None
 
 
